@@ -1026,6 +1026,6 @@ func main() {
 			return 1
 		},
 		HangSeconds: 400,
-		Subs:        []mon.Sub{subSessions(), subStatelessStorm()},
+		Subs:        []mon.Sub{subSessions(), subStatelessStorm(), subStalledPeer()},
 	})
 }
